@@ -638,6 +638,15 @@ def exec (st : St) (op : String) : Pm Res := do
         | .pq => MaxQ.deserialize (P := Pr) #[]
         | .dpq => DQ.deserialize (P := Pr) #[]
       pure ({ st with s := { s' with ticks := s'.ticks + s.ticks } }, "ok")
+  | "deser_hint" =>
+    -- the announced length is not part of the modelled state (the pre-allocation is capped: fix F8)
+    let _hint ← nat; let xs ← entries
+    pure <| do
+      let t0 := s.ticks
+      let s' ← match st.kind with
+        | .pq => MaxQ.deserialize xs
+        | .dpq => DQ.deserialize xs
+      pure ({ st with s := { s' with ticks := s'.ticks + t0 } }, "ok")
   | "deser_bad" =>
     let _v ← nat; let _xs ← entries
     -- an ill-formed / ill-typed input is an error; the queue it was to replace is untouched
